@@ -550,6 +550,12 @@ func (c *Compiler) applyUsesToNode(mod, nod, use parse.Node, parentStatus schema
 	if ur := use.Root(); ur != nil && ur.Type() == parse.NodeSubmodule {
 		kidmod = c.submodules[ur.Name()].GetModule()
 	}
+	// A 'uses' inside a node that was itself copied from a grouping (a
+	// forward referenced grouping, or one defined in a submodule, is cloned
+	// before its own 'uses' are expanded) belongs where that copy is used.
+	if nur := nod.UsesRoot(); nur != nil && nur != nod.Root() {
+		kidmod = nur
+	}
 
 	refinedNodes := []parse.Node{}
 	for _, kid := range group.Children() {
